@@ -1,7 +1,30 @@
 (* Props/C10.v — property theorems only (model: Syntax/CoreGrammar.v, core token fragment). *)
 From Verif Require Import Base.Str Syntax.CoreGrammar Proofs.CoreGrammarProofs.
 
+(* posErr's Incomplete flag = input exhausted inside an open statement *)
 Theorem C10_posErr_incomplete_iff_eof_in_open_stmt : forall (A : Type) o cur c p,
   incomplete (@perr A o cur c p) = true <-> cur = [] /\ 0 < o.
 Proof. exact perr_incomplete_iff. Qed.
 Print Assumptions C10_posErr_incomplete_iff_eof_in_open_stmt.
+
+(* Every parsing function of the model, entered with the input exhausted inside an open statement
+   (openNodes = S o), returns success with nothing left, or an error marked Incomplete (never a plain
+   error); for any fuel, both variants. [eof_ok e x] = x is POk v with e v, or PErr _ _ true, or PFuel. *)
+Theorem C10_eof_errors_incomplete : forall px fuel,
+  (forall o q stops ge any, eof_ok end_lb (stmts px fuel o q stops ge any [])) /\
+  (forall o q re bc, eof_ok (end_ob []) (get_stmt px fuel (S o) q re bc [])) /\
+  (forall o q re bc, eof_ok (end_ob []) (and_or px fuel (S o) q re bc [])) /\
+  (forall o q ng bc sp, eof_ok (end_o []) (stmt_pipe px fuel (S o) q ng bc sp [])) /\
+  (forall o q bc, eof_ok (end_o []) (pipe_loop px fuel (S o) q bc [])) /\
+  (forall o q lpos stops, eof_ok end_l (follow_stmts px fuel (S o) q lpos stops [])) /\
+  (forall o q t, eof_ok end_l (block px fuel (S o) q [t])) /\
+  (forall o t, eof_ok end_l (subshell px fuel (S o) [t])) /\
+  (forall o q t, eof_ok end_l (if_clause px fuel (S o) q [t])) /\
+  (forall o q ipos, eof_ok end_l (elif_loop px fuel (S o) q ipos [])) /\
+  (forall o q t, eof_ok end_l (while_clause px fuel (S o) q [t])) /\
+  (forall o q t, eof_ok end_l (for_clause px fuel (S o) q [t])) /\
+  (forall o q t, eof_ok end_l (case_clause px fuel (S o) q [t])) /\
+  (forall o prev, eof_ok end_l (case_items px fuel (S o) prev [])) /\
+  (forall o q npos, eof_ok end_l (func_decl px fuel (S o) q npos [])).
+Proof. exact eof_all. Qed.
+Print Assumptions C10_eof_errors_incomplete.
